@@ -186,6 +186,10 @@ class Canon:
                     changed = True
                     i += 1
                     continue
+                # S3: orientation of two-armed conditionals (after S5 may have changed the test)
+                if on("S3") and isinstance(st, ast.If) and st.orelse and prefer_negated(st.test):
+                    st.test, st.body, st.orelse = neg(st.test), st.orelse, st.body
+                    changed = True
                 # S4: guard-clause form
                 if on("S4") and isinstance(st, ast.If) and st.orelse:
                     if not _terminates(st.body) and _terminates(st.orelse):
@@ -309,8 +313,6 @@ class Canon:
                 st.test = st.test.operand.operand
             st.body = self.block(st.body, outer)
             st.orelse = self.block(st.orelse, outer) if st.orelse else []
-            if on("S3") and st.orelse and prefer_negated(st.test):
-                st.test, st.body, st.orelse = neg(st.test), st.orelse, st.body
             return [st]
         for fld in ("body", "orelse", "finalbody"):
             blk = getattr(st, fld, None)
